@@ -65,15 +65,19 @@ impl CachedPlan {
     /// Return true if a set of input and output nodes matches those used to
     /// create the plan.
     pub fn matches(&self, inputs: &[NodeId], outputs: &[NodeId]) -> bool {
-        let input_match = inputs.len() == self.inputs.len()
-            && inputs
-                .iter()
-                .all(|node_id| self.inputs.binary_search(node_id).is_ok());
-        let output_match = outputs.len() == self.outputs.len()
-            && outputs
-                .iter()
-                .all(|node_id| self.outputs.binary_search(node_id).is_ok());
-        input_match && output_match
+        // The IDs must be the same as the cached ones up to order. Checking
+        // only the length and that each ID occurs in the cached list is not
+        // enough, as a request with duplicate IDs (eg. `[a, a]` vs a cached
+        // `[a, b]`) would be accepted, bypassing the checks in `create_plan`.
+        fn same_ids(ids: &[NodeId], sorted_ids: &[NodeId]) -> bool {
+            if ids.len() != sorted_ids.len() {
+                return false;
+            }
+            let mut ids: SmallVec<[NodeId; 16]> = SmallVec::from_slice(ids);
+            ids.sort();
+            ids.as_slice() == sorted_ids
+        }
+        same_ids(inputs, &self.inputs) && same_ids(outputs, &self.outputs)
     }
 
     /// Return the IDs of the sequence of operators to run.
